@@ -1,7 +1,7 @@
-E21="a limit or early exit: an iteration cap, a step limit, a break / continue condition, the guard of a while loop, a maximum number of attempts, a tolerance that ends a loop"
-E22="copy and paste between sibling functions: something fixed or changed in one twin but not the other (the IV and non-IV variants, the _T wrappers, the exact and tau-leap paths, the d / p / q / r family of one distribution, Square versus Normal), or arguments swapped between twins"
-E23="units and scales: log versus log10, natural versus logarithmic scale, rate versus scale, variance versus standard deviation, a weight versus its square, per-capita versus total, radians versus periods"
-E24="type dispatch: isinstance chains (Number versus np.number versus bool, list versus tuple versus ndarray, str versus sympy Symbol), hasattr checks, a legitimate but unexpected type going through the wrong branch"
+E21="what is stored versus what is handed out: a getter or property that returns internal mutable state (a list, dict or array the caller may change), an argument stored by reference and changed later by the caller, a returned array that is a view of internal storage"
+E22="order of initialisation and lazy attributes: something computed on first use and never refreshed, a hasattr / None guard, an attribute set in one method and read in another that may run first, the order of statements in __init__"
+E23="string handling: a regular expression, splitting a declaration on commas or whitespace, prefix tests (startswith, in), str.replace on equation strings, numbers that go through str() or repr() and lose digits, names that contain other names"
+E24="array indexing and linear algebra: np.ix_ and fancy indexing versus slices (copies versus views), summing over the wrong axis, dot versus elementwise product, filling one triangle of a symmetric matrix, reshape followed by indexing"
 mk() { /verif/tools/mkwt.sh "$1" "$2" "$3"; }
 A() { python3 - "$1" <<'PY'
 import json,glob,os,sys
